@@ -7,7 +7,7 @@ Import ListNotations.
 Local Open Scope string_scope.
 
 Definition alphabet : list ascii :=
-  [" "; "N"; "G"; "T"; "X"; "1"; "."; "*"; ";"; "\"; "013"; "010"; "@"]%char.
+  [" "; "N"; "G"; "T"; "X"; "1"; "0"; "."; "*"; ";"; "\"; "013"; "010"; "@"]%char.
 
 Fixpoint all_strings (n : nat) : list string :=
   match n with
